@@ -74,6 +74,10 @@ def handleResponse : List String → String
       | .err => "err"
       | .outside => "outside-model"
     | none => "bad-op"
+  -- documents nested 10^5 .. 10^6 deep, parsed by the implementation in a child process on a small
+  -- stack: the model's parser is a total function (`parse_total`, Props/C16), so whatever the
+  -- answer is, the parser comes back with one
+  | ["deepparse", _, _, _] => "survives"
   | _ => "bad-op"
 
 end Omaha.Drv
